@@ -132,11 +132,11 @@ def gen_decls(rng, pool):
         elif k == 'gear':
             src = list(range(n)) if wild or len(gearish) < 2 else gearish
             eta = rng.choice([rng.uniform(0.3, 1), 1, 0, 1.2, -0.1]) if rng.random() < 0.3 else rng.uniform(0.3, 1)
-            ds.append(['gear', rng.choice(src), rng.choice(src), eta] + rng.choice([[], [], [], ['np'], ['int']]))
+            ds.append(['gear', rng.choice(src), rng.choice(src), eta] + rng.choice([[], [], [], ['np'], ['int'], ['np32'], ['npint'], ['frac']]))
         else:
             src = list(range(n)) if wild or len(wormish) < 2 else wormish
             f = rng.choice([rng.uniform(0, 0.6), 1.0, 1.3, -0.2, 0, rng.uniform(0.6, 1), rng.uniform(0.8, 1)]) if rng.random() < 0.4 else rng.uniform(0, 0.6)
-            ds.append(['worm', rng.choice(src), rng.choice(src), f] + rng.choice([[], [], [], ['np'], ['int']]))
+            ds.append(['worm', rng.choice(src), rng.choice(src), f] + rng.choice([[], [], [], ['np'], ['int'], ['np32'], ['npint'], ['frac']]))
     return ds
 
 
@@ -150,7 +150,22 @@ def num_arg(d):
         return np.float64(v)
     if how == 'int' and float(v).is_integer():
         return int(v)
+    if how == 'np32':
+        import numpy as np
+        return np.float32(v)
+    if how == 'npint' and float(v).is_integer():
+        import numpy as np
+        return np.int64(int(v))
+    if how == 'frac':
+        from fractions import Fraction
+        return Fraction(v)
     return v
+
+
+def not_a_python_number(d):
+    """representations that are numbers but neither `float` nor `int` instances: the documented type check rejects them"""
+    how = d[4] if len(d) > 4 else None
+    return how in ('np32', 'frac') or (how == 'npint' and float(d[3]).is_integer())
 
 
 def expected(pool, objs, d):
@@ -216,7 +231,7 @@ def expected(pool, objs, d):
     if not (0 <= eta <= 1):
         return ('err', 'ValueError')
     cw, tw = objs[worm].pressure_angle.cos(), objs[worm].helix_angle.tan()
-    sl = None if abs(f - cw * tw) < 1e-12 else (f > cw * tw)
+    sl = (f > cw * tw) if (abs(f - cw * tw) >= 1e-12 or (f == 0 and cw * tw == 0)) else None      # (0 > 0 is decided exactly)
     return ('ok', {'ratio': ratio, 'eff': eta, 'roles': True, 'worm': worm, 'sl': sl})
 
 
@@ -262,6 +277,8 @@ def eval_case(ctx, case, props):
     for di, d in enumerate(decls):
         before = state(objs)
         exp = expected(pool, objs, d)
+        if d[0] != 'joint' and not_a_python_number(d) and exp[0] != 'skip':
+            exp = ('err', 'TypeError') if exp[0] == 'ok' else exp
         try:
             if d[0] == 'joint':
                 add_fixed_joint(objs[d[1]], objs[d[2]])
@@ -325,6 +342,9 @@ def eval_case(ctx, case, props):
     # ---- the Lean model on the same pool and calls ---------------------------------------------
     motors = [i for i, e in enumerate(pool) if e['type'] == 'motor']
     chain = acyclic_chain(objs, 0)
+    if any(d[0] != 'joint' and not_a_python_number(d) for d in decls):
+        ctx.count('model comparison skipped: an argument is a number that is neither float nor int (Python typing is not modelled)')
+        skipped = True
     if ctx.driver.available and not skipped:
         line = 'r elems=' + ';'.join(elem_token(e, o) for e, o in zip(pool, objs)) + ' decls=' + \
                ';'.join(','.join([d[0], str(d[1]), str(d[2])] + ([R(d[3])] if len(d) > 3 else [])) for d in decls) + \
@@ -602,6 +622,11 @@ def worm_edge_case(rng, tbl):
             calls.append(['worm', m_, s_, f])
     rng.shuffle(calls)
     decls += calls[:rng.randint(3, 6)]
+    if rng.random() < 0.3:
+        # the wheel drives a worm whose helix angle is null, without friction: f = 0 is not greater than cos(alpha)*tan(0) = 0
+        pool.append({'type': 'wormgear', 'name': 'n3', 'pa': list(pa), 'pa_deg': row[0], 'helix': [0.0, rng.choice(['deg', 'rad'])],
+                     'helix_deg': 0.0, 'starts': rng.randint(1, 4), 'd': None})
+        decls.append(['worm', 2, 3, 0])
     return {'t': 'rel', 'pool': pool, 'decls': decls}
 
 
